@@ -13,7 +13,7 @@ Alpha(kind) ==
     [] kind = "size" -> {43, 45, 49, 48, 107, 99, 71, 120, 102}             \* + - 1 0 k c G x f
     [] kind = "type" -> {102, 100, 108, 120, 68, 44}                        \* f d l x D ,
     [] kind = "perm" -> {45, 47, 43, 61, 55, 56, 117, 97, 114, 120, 44}     \* - / + = 7 8 u a r x ,
-    [] kind = "printf" -> {120, 37, 92, 45, 53, 112, 122, 110}              \* x % \ - 5 p z n
+    [] kind = "printf" -> {120, 37, 92, 45, 53, 112, 122, 110, 84, 81}      \* x % \ - 5 p z n T Q
     [] OTHER -> {}
 ExecWords == {"cmd", "{}", "x{}", "w", ";", "+"}
 RegexTypes == {"emacs", "posix-basic", "posix-extended", "grep", "ed", "sed", "posix-egrep", "awk",
